@@ -853,6 +853,35 @@ clr_poss(bitint383_t *restrict cand, const bitint383_t *poss)
 	return;
 }
 
+static bool
+poss_sel_p(const bitint383_t *poss, size_t lo, size_t hi, size_t n)
+{
+/* check if POSS selects any of the instances LO to HI (counting from 1)
+ * of the N instances of a period */
+	int pos;
+
+	for (bitint_iter_t posi = 0UL;
+	     (pos = bi383_next(&posi, poss), posi);) {
+		if (pos < 0) {
+			pos += (int)n + 1;
+		}
+		if (pos > 0 && (size_t)pos >= lo && (size_t)pos <= hi) {
+			return true;
+		}
+	}
+	return false;
+}
+
+static size_t
+cnt_cand(const bitint383_t *cand)
+{
+	size_t nbits = 0U;
+
+	for (bitint_iter_t cnti = 0UL;
+	     (bi383_next(&cnti, cand), cnti); nbits++);
+	return nbits;
+}
+
 static void
 shift(bitint383_t cand[static 3U], const unsigned int y, echs_shift_t sh)
 {
@@ -987,6 +1016,11 @@ rrul_fill_yly(echs_instant_t *restrict tgt, size_t nti, rrulsp_t rr)
 	bitint447_t pdow = {0U};
 	bool ymdp;
 	struct enum_s e;
+	/* for BYSETPOS on the instances of a period */
+	size_t nT;
+	size_t ninst = 0U;
+	size_t inst = 0U;
+	bool tposp;
 
 	if (UNLIKELY((unsigned int)rr->count < nti)) {
 		if (UNLIKELY((nti = rr->count) == 0UL)) {
@@ -1003,6 +1037,10 @@ rrul_fill_yly(echs_instant_t *restrict tgt, size_t nti, rrulsp_t rr)
 
 	/* generate a set of minutes and seconds */
 	(void)make_enum(&e, proto, rr);
+	nT = (size_t)e.nH * e.nM * e.nS;
+	/* with several instances a day BYSETPOS can't be had by picking days,
+	 * shifts work on days though so leave them as they are */
+	tposp = nT > 1U && !rr->shift && bi383_has_bits_p(&rr->pos);
 
 	with (unsigned int tmpm) {
 		nm = 0UL;
@@ -1117,7 +1155,14 @@ rrul_fill_yly(echs_instant_t *restrict tgt, size_t nti, rrulsp_t rr)
 		}
 
 		/* limit by setpos */
-		clr_poss(cand, &rr->pos);
+		if (LIKELY(!tposp)) {
+			clr_poss(cand, &rr->pos);
+		} else {
+			/* setpos goes for the instances of the period,
+			 * number them as we go along */
+			ninst = cnt_cand(cand) * nT;
+			inst = 0U;
+		}
 
 		/* do the shifts */
 		shift(cand, y, rr->shift);
@@ -1126,6 +1171,12 @@ rrul_fill_yly(echs_instant_t *restrict tgt, size_t nti, rrulsp_t rr)
 		for (int iy = -1; iy <= 1; iy++) {
 			for (bitint_iter_t all = 0UL;
 			     res < nti && (yd = bi383_next(&all, &cand[(iy != 0) << (iy > 0)]), all);) {
+				if (UNLIKELY(tposp) &&
+				    !poss_sel_p(&rr->pos, inst + 1U, inst + nT, ninst)) {
+					/* none of this day's instances is wanted */
+					inst += nT;
+					continue;
+				}
 				for (ENUM_INIT(e, iS, iM, iH);
 				     res < nti && ENUM_COND(e, iS, iM, iH);
 				     ENUM_ITER(e, iS, iM, iH)) {
@@ -1139,6 +1190,10 @@ rrul_fill_yly(echs_instant_t *restrict tgt, size_t nti, rrulsp_t rr)
 						.ms = proto.ms,
 					};
 
+					if (UNLIKELY(tposp) &&
+					    (inst++, !poss_sel_p(&rr->pos, inst, inst, ninst))) {
+						continue;
+					}
 					if (UNLIKELY(echs_instant_lt_p(rr->until, x))) {
 						goto fin;
 					}
@@ -1177,6 +1232,11 @@ rrul_fill_mly(echs_instant_t *restrict tgt, size_t nti, rrulsp_t rr)
 	uint8_t wd_mask = 0U;
 	bool ymdp;
 	struct enum_s e;
+	/* for BYSETPOS on the instances of a period */
+	size_t nT;
+	size_t ninst = 0U;
+	size_t inst = 0U;
+	bool tposp;
 
 	if (UNLIKELY((unsigned int)rr->count < nti)) {
 		if (UNLIKELY((nti = rr->count) == 0UL)) {
@@ -1194,6 +1254,10 @@ rrul_fill_mly(echs_instant_t *restrict tgt, size_t nti, rrulsp_t rr)
 
 	/* generate a set of minutes and seconds */
 	(void)make_enum(&e, proto, rr);
+	nT = (size_t)e.nH * e.nM * e.nS;
+	/* with several instances a day BYSETPOS can't be had by picking days,
+	 * shifts work on days though so leave them as they are */
+	tposp = nT > 1U && !rr->shift && bi383_has_bits_p(&rr->pos);
 
 	with (int tmpd) {
 		nd = 0UL;
@@ -1291,7 +1355,14 @@ rrul_fill_mly(echs_instant_t *restrict tgt, size_t nti, rrulsp_t rr)
 		}
 
 		/* limit by setpos */
-		clr_poss(cand, &rr->pos);
+		if (LIKELY(!tposp)) {
+			clr_poss(cand, &rr->pos);
+		} else {
+			/* setpos goes for the instances of the period,
+			 * number them as we go along */
+			ninst = cnt_cand(cand) * nT;
+			inst = 0U;
+		}
 
 		/* do the shifts */
 		shift(cand, y, rr->shift);
@@ -1300,6 +1371,12 @@ rrul_fill_mly(echs_instant_t *restrict tgt, size_t nti, rrulsp_t rr)
 		for (int iy = -1; iy <= 1; iy++) {
 			for (bitint_iter_t all = 0UL;
 			     res < nti && (yd = bi383_next(&all, &cand[(iy != 0) << (iy > 0)]), all);) {
+				if (UNLIKELY(tposp) &&
+				    !poss_sel_p(&rr->pos, inst + 1U, inst + nT, ninst)) {
+					/* none of this day's instances is wanted */
+					inst += nT;
+					continue;
+				}
 				for (ENUM_INIT(e, iS, iM, iH);
 				     res < nti && ENUM_COND(e, iS, iM, iH);
 				     ENUM_ITER(e, iS, iM, iH)) {
@@ -1313,6 +1390,10 @@ rrul_fill_mly(echs_instant_t *restrict tgt, size_t nti, rrulsp_t rr)
 						.ms = proto.ms,
 					};
 
+					if (UNLIKELY(tposp) &&
+					    (inst++, !poss_sel_p(&rr->pos, inst, inst, ninst))) {
+						continue;
+					}
 					if (UNLIKELY(echs_instant_lt_p(rr->until, x))) {
 						goto fin;
 					}
